@@ -265,7 +265,7 @@ def run_unit(unit, repo_src=None, out_dir=None, extra_args=(), rlimit_mult=None,
             f.props = sorted(set(p_ for (ps, _) in labels for p_ in ps))
             f.label = next((n for (_, n) in labels if n), '')
         else:
-            f.props = list(g.owner_props.get(f.owner, []))
+            f.props = g.props_of(f.owner, f)
         res.failures.append(f)
     if summary is None or (other_errors and not res.failures and res.errors == 0 and res.verified == 0):
         res.status = 'undecided'
